@@ -29,6 +29,14 @@ m(i) for the content mode of the innermost group containing both:
 
 Property lemma lemma_range_is_exact (the sentence of C07): if all children share a Sequence with N and are in specification order,
 then for every position p:  inserting N at p keeps the children in specification order  <==>  a <= p <= b.
+General form (insertrange_general.rs), for every content mode: with pair_ok(x, y) := "x may stand before y" (in their common Sequence
+group: x <= y, equal only if the element may repeat; in their common Choice group: x == y and repeatable; Bag / Mixed: always) and
+conform := pair_ok for all pairs of children,
+    lemma_range_is_exact_general   conform  &&  Ok((a, b))  ==>  (inserting at p keeps conform  <==>  a <= p <= b)
+    lemma_refusal_is_exact         Err                      ==>  no position keeps conform
+    lemma_creation_keeps_conform   conform is a representation invariant: a creation inside the range preserves it
+The step that needs real work is the soundness of ending the scan at the first later sibling (lemma_after_chain / lemma_before_chain:
+induction over the group tree along the index lists); pair_ok is literally the oracle of the bounded API check `api editconform`.
 
 create_sub_element_at: Ok ==> the range is Ok((a, b)), a <= position <= b, and the content is the old content with the new element
 inserted at `position` (nothing else changed); position outside the range ==> Err and the content is unchanged.
@@ -597,13 +605,19 @@ proof {
 }''')]),
            ]
     fns = [f for f in fns if (f.name == 'sort') == (which == 'sort')]
+    if which == 'edit':
+        spec += open(os.path.join(os.path.dirname(os.path.abspath(__file__)), 'insertrange_general.rs')).read()
     u = Unit(name='insertrange' if which == 'edit' else 'sortnode', prop='C07' if which == 'edit' else 'C14', spec=spec, fns=fns,
              wrap={IMPL_R: 'impl ElementRaw', IMPL_E: 'impl Element', lookups.IMPL_ET: 'impl ElementType', lookups.IMPL_GT: 'impl GroupType', lookups.IMPL_AV: 'impl AutosarVersion', lookups.IMPL_SI: 'impl SubelemDefinitionsIter'},
              dropped=['the element graph: ElementRaw is {elemname, elemtype, content: Vec<ElementContent>} (the fields these functions read; SmallVec -> Vec), a child Element is an opaque handle with uninterpreted name_of/type_of (the real accessors take the child lock); error payloads opaque (R39)',
                       'specification lookups are leaves with the contracts proved in unit lookups (find_sub_element == the spec function find_from); table contents uninterpreted (wf_tables, wf_modes discharged by native ground checks)',
                       '`ElementRaw { .. }.wrap()` (Arc/RwLock allocation) is the leaf vx_new_element'])
     if which == 'edit':
-        u.property_lemmas = {'lemma_range_is_exact': 'for children in specification order inside a sequence: inserting at p keeps the order <==> p lies in the reported range'}
+        u.property_lemmas = {'lemma_range_is_exact': 'for children in specification order inside a sequence: inserting at p keeps the order <==> p lies in the reported range',
+                             'lemma_range_is_exact_general': 'all content modes: for conformant children (sequence order, one alternative per choice, single-occurrence elements once), inserting at p keeps them conformant <==> p lies in the reported range',
+                             'lemma_refusal_is_exact': 'a refusal means that no position keeps the children conformant',
+                             'lemma_creation_keeps_conform': 'representation invariant: a creation inside the reported range keeps the children of a sequence / choice element conformant',
+                             'lemma_after_chain': 'the early end of the scan is sound (right side)', 'lemma_before_chain': 'the start of the range is sound (left side)'}
     for name in LEAVES:
         f = copy.copy(lf[name])
         u.leaves.append((f, 'lookups'))
